@@ -961,17 +961,56 @@ def r_rcodefinal(prog, R):
                 r.viol(key, f.name, f.loc(ws[0][2]), "%s writes the raw response code without settling the reported one on every path, and ares_dns_parse_buf returns success after %s (line %s) on a path "
                        "without a store to the reported code: a message whose OPT record extends the code to an unassigned value is reported with the bare header bits" % (f.name, c.get("callee"), c["ln"]),
                        trail=[top.loc(top.blocks[x].els[0]) for x in tr if top.blocks[x].els][:8])
-    # the settling store maps an unassigned value to SERVFAIL
-    vals = set()
-    for f in [top] + [w[0] for w in writers.values()]:
-        for b, i, el in f.elements():
-            if store_to(el, "rcode"):
-                vals.add(render(strip(el["e"].get("r"))))
-    key = "an unassigned wire value is reported as SERVFAIL"
-    if any("ARES_RCODE_SERVFAIL" in v for v in vals) and any("raw_rcode" in v for v in vals):
-        r.ok(key, top.loc(top.ln))
+    # the settling store maps an unassigned value to SERVFAIL and an assigned one to itself: decided by interpreting the parser's own statements from every block from which
+    # the success return is reached through a store to the reported code (any spelling: if/else, conditional expression, a local copy of the raw value)
+    import evalx
+    key = "an unassigned wire value is reported as SERVFAIL, an assigned one as itself"
+    lhs = None
+    for b, i, el in top.elements():
+        if store_to(el, "rcode"):
+            lhs = render(strip(el["e"]["l"]))
+    servfail = None
+    for it in prog.enum("ares_dns_rcode_t")["items"]:
+        if it["n"] == "ARES_RCODE_SERVFAIL":
+            servfail = it["v"]
+    if lhs is None or servfail is None or not lhs.endswith("rcode"):
+        # settled inside the writers: fall back to the vocabulary of the stored values
+        vals = set()
+        for f in [top] + [w[0] for w in writers.values()]:
+            for b, i, el in f.elements():
+                if store_to(el, "rcode"):
+                    vals.add(render(strip(el["e"].get("r"))))
+        if any("ARES_RCODE_SERVFAIL" in v for v in vals):
+            r.ok(key, top.loc(top.ln), nontrivial=False)
+        else:
+            r.viol(key, top.name, top.loc(top.ln), "the parser's stores to the reported response code (%s) no longer include the SERVFAIL fallback" % sorted(vals))
+        return
+    rawname = lhs[:-len("rcode")] + "raw_rcode"
+    locs = {v["n"] for _, _, el in top.elements() if el["k"] == "decl" for v in el["vars"]}
+    seen = {}
+    starts = sorted({b.id for b, i, c in top.calls_to("ares_dns_rcode_isvalid")})
+    if not starts:
+        r.viol(key, top.name, top.loc(top.ln), "ares_dns_parse_buf stores the reported response code without asking ares_dns_rcode_isvalid(): an unassigned value is reported as it stands")
+        return
+    for bid in starts:
+        for valid, raw in ((1, 3), (1, 16), (0, 35), (0, 256)):
+            env = {n_: 0 for n_ in locs}
+            env.update({rawname: raw, lhs: 777, "ares_dns_rcode_isvalid()": valid})
+            out = {}
+            try:
+                res = evalx.run_cfg(top, env, start=bid, out=out, max_steps=12)
+            except evalx.Unknown:
+                continue
+            if res[0] == "ret" and name_of_const(res[1].get("e")) == "ARES_SUCCESS" and out.get(lhs) != 777:
+                seen[(bid, valid, raw)] = out.get(lhs)
+    wrong = [(k_, v_) for k_, v_ in sorted(seen.items()) if v_ != (k_[2] if k_[1] else servfail)]
+    if not (any(k_[1] for k_ in seen) and any(not k_[1] for k_ in seen)):
+        r.broke("ares_dns_parse_buf: the statements that settle the reported response code could not be interpreted")
+    elif wrong:
+        (bid, valid, raw), v_ = wrong[0]
+        r.viol(key, top.name, top.loc(top.ln), "a raw response code of %d that is %s is reported as %d" % (raw, "assigned" if valid else "not assigned", v_))
     else:
-        r.viol(key, top.name, top.loc(top.ln), "the parser's stores to the reported response code (%s) no longer include both the raw value and the SERVFAIL fallback" % sorted(vals))
+        r.ok(key, top.loc(top.ln), note="%d evaluations" % len(seen))
 
 
 def run(prog, R, tier):
